@@ -142,8 +142,24 @@ def check(case):
         edges, root = case["edges"], case["root"]
         nodes = sorted({v for e in edges for v in e})
         G = graph_of(case["name"], edges, {v: Poly.var(f"u{v}") for v in nodes})
-        got = call("automated_equation", AutomatedEquation().automated_equation, G, Poly.var("p"), int(str(root)))
         want = oracle_poly(edges, root)
+        try:
+            got = call("automated_equation", AutomatedEquation().automated_equation, G, Poly.var("p"), int(str(root)))
+        except Violation as v:
+            if not (":TypeError@" in v.kind and ("Poly" in v.msg or "unsupported operand" in v.msg)):
+                raise
+            # the exact polynomial type could not be pushed through the code: evaluate exactly on rational points instead
+            import itertools
+            grid = [Fraction(a, b) for a, b in [(0, 1), (1, 3), (1, 2), (3, 4), (1, 1), (3, 2), (-1, 2)]]
+            for gi, phi in enumerate(grid):
+                for rep in range(3):
+                    us = {v_: grid[(gi + rep + 2 * k_) % len(grid)] for k_, v_ in enumerate(nodes)}
+                    Gn = graph_of(case["name"] + f"#{gi}.{rep}", edges, us)
+                    g = call("automated_equation", AutomatedEquation().automated_equation, Gn, phi, int(str(root)))
+                    w = want.subs({**{f"u{v_}": x for v_, x in us.items()}, "p": phi})
+                    if abs(float(g) - float(w)) > 1e-9 * max(1.0, abs(float(w))):
+                        raise Violation("identity-grid", f"motif {case['name']} edges {edges} focal {root} phi {phi} u {us}: got {g}, exact {w}")
+            return {"nontrivial": len(nodes) >= 3, "classes": ["rational_grid_fallback"]}
         if not isinstance(got, Poly):
             got = Poly.const(Fraction(got))
         if got != want:
@@ -153,6 +169,14 @@ def check(case):
         H = nx.Graph(list(map(tuple, edges)))
         cyc = H.number_of_edges() >= H.number_of_nodes()
         return {"nontrivial": len(nodes) >= 3 and cyc, "classes": [f"n{len(nodes)}"] + (["has_cycle"] if cyc else ["tree"])}
+    if not case.get("plain") and not case.get("_retry"):
+        try:
+            return check({**case, "_retry": True})
+        except Violation as v:
+            if ":TypeError@" in v.kind and ("Poly" in v.msg or "unsupported operand" in v.msg):
+                # the exact polynomial type could not be pushed through the code: judge the same history with plain numbers
+                return check({**case, "plain": True})
+            raise
     AE = AutomatedEquation()
     seen = {}
     for si, stp in enumerate(case["steps"]):
